@@ -205,9 +205,11 @@ def urivalue (u : Cps) : Option Cps :=
   let start := match findIdx 0x28 u with | some i => i + 1 | none => 0
   unquoteUri (strip ((u.dropLast).drop start))
 
-/-- `token[1][4:-1].strip(' \t\r\n\f')` then unquote -/
+/-- `token[1][token[1].find('(') + 1 : -1].strip(' \\t\\r\\n\\f')` then unquote (`util.py:254-268`; since 214ea2e the same
+computation as `helper.urivalue`) -/
 def uritokenvalue (u : Cps) : Option Cps :=
-  unquoteUri (strip ((u.dropLast).drop 4))
+  let start := match findIdx 0x28 u with | some i => i + 1 | none => 0
+  unquoteUri (strip ((u.dropLast).drop start))
 
 /-! ## the codecs of property C03: what is written for a stored value, what is stored for a token text -/
 
